@@ -1,7 +1,9 @@
 (* C03 - Fetch returns exactly the acknowledged bytes, in order.
    Only statements closed by [exact]; proofs live in proofs/ReadPathProofs.v.
-   The model (model/ReadPath.v) is of the tree with fixes/C03-flush-window-read-order.patch
-   (and fixes/C04-find-index-entry-floor.patch) applied. *)
+   model/ReadPath.v has three versions of the segment read (VHead: before the C04
+   fixes, VFloor: with fixes/C04-find-index-entry-floor.patch, VFull: also with
+   fixes/C04-never-cut-inside-index-block.patch); the C03 theorems hold for all three,
+   given the fallback order of fixes/C03-flush-window-read-order.patch ([read_gen v true]). *)
 From KS Require Import lib.Base model.ReadPath model.ReadRestore proofs.ReadPathProofs proofs.ReadRestoreProofs.
 Open Scope Z_scope.
 
@@ -12,10 +14,10 @@ Open Scope Z_scope.
    then buffered), and every live batch before that suffix ends below the requested
    offset - i.e. the run starts at a batch boundary at or before the batch holding o
    (at the first batch after o when o falls in a gap). *)
-Theorem C03_read_sound : forall iv rq start ops cached o max d,
+Theorem C03_read_sound : forall v iv rq start ops cached o max d,
   Forall valid_op ops ->
   let l := run (init_log iv rq start) ops in
-  read l cached o max = ROk d -> is_run (live l) o d.
+  read_gen v true l cached o max = ROk d -> is_run (live l) o d.
 Proof. exact read_sound. Qed.
 Print Assumptions C03_read_sound.
 
@@ -30,33 +32,33 @@ Print Assumptions C03_live_are_appended.
    sliceCachedSegment, S3 range read, full download + sliceCachedSegment - return the
    same result for ANY index entries, offset and limit, provided the registered size
    is the object's size ... *)
-Theorem C03_paths_agree_segment : forall s o max,
-  s_size s = zlen (s_data s) -> read_uncached s o max = read_cached s o max.
-Proof. exact (paths_agree_seg true). Qed.
+Theorem C03_paths_agree_segment : forall v s o max,
+  s_size s = zlen (s_data s) -> read_uncached_gen v s o max = read_cached_gen v s o max.
+Proof. exact paths_agree_seg. Qed.
 Print Assumptions C03_paths_agree_segment.
 
 (* ... hence on every reachable log a cached and an uncached Read agree. *)
-Theorem C03_paths_agree : forall iv rq start ops o max,
+Theorem C03_paths_agree : forall v iv rq start ops o max,
   Forall valid_op ops ->
   let l := run (init_log iv rq start) ops in
-  read l true o max = read l false o max.
+  read_gen v true l true o max = read_gen v true l false o max.
 Proof. exact read_paths_agree. Qed.
 Print Assumptions C03_paths_agree.
 
 (* (4) The same across restarts: histories may contain, anywhere, a restart whose
    RestoreFromS3 succeeded (fresh PartitionLog from any metadata-store offset, the
    committed segments re-registered from S3, buffer and in-flight batches lost). *)
-Theorem C03_read_sound_restart : forall iv rq start xs cached o max d,
+Theorem C03_read_sound_restart : forall v iv rq start xs cached o max d,
   Forall valid_xop xs ->
   let l := xrun (init_log iv rq start) xs in
-  read l cached o max = ROk d -> is_run (live l) o d.
+  read_gen v true l cached o max = ROk d -> is_run (live l) o d.
 Proof. exact read_sound_restart. Qed.
 Print Assumptions C03_read_sound_restart.
 
-Theorem C03_paths_agree_restart : forall iv rq start xs o max,
+Theorem C03_paths_agree_restart : forall v iv rq start xs o max,
   Forall valid_xop xs ->
   let l := xrun (init_log iv rq start) xs in
-  read l true o max = read l false o max.
+  read_gen v true l true o max = read_gen v true l false o max.
 Proof. exact read_paths_agree_restart. Qed.
 Print Assumptions C03_paths_agree_restart.
 
@@ -90,7 +92,8 @@ Example C03_nonvacuous :
   Forall valid_op ops /\
   map ie_off (s_entries (nth 0 (l_segs l) (mkSeg 0 0 0 [] [] []))) = [0; 3] /\
   map b_base (live l) = [0; 1; 3; 4; 8; 10] /\
-  read l false 2 61 = ROk (b_bytes (nth 0 (live l) dflt)) /\       (* offset 2 is in batch [1,2]; the run starts at the entry for 0 *)
+  read_floor l false 2 61 = ROk (b_bytes (nth 0 (live l) dflt)) /\ (* offset 2 is in batch [1,2]; the run starts at the entry for 0 *)
+  read l false 2 61 = ROk (b_bytes (nth 0 (live l) dflt) ++ b_bytes (nth 1 (live l) dflt)) /\ (* ... and with the cap extension reaches the entry for 3 *)
   read l true 7 200 = ROk (b_bytes (nth 4 (live l) dflt)) /\       (* offset 7 was dropped: first batch after *)
   read l true 9 0 = ROk (b_bytes (nth 4 (live l) dflt)) /\         (* flush window *)
   read l true 11 1 = ROutOfRange.
